@@ -6,10 +6,13 @@ import (
 	"encoding/json"
 	"fmt"
 	"os"
+	"sort"
 	"strconv"
 	"time"
 
+	"github.com/aergoio/aergo/v2/mempool"
 	"github.com/aergoio/aergo/v2/types"
+	"github.com/aergoio/aergo/v2/types/message"
 	fx "github.com/aergoio/aergo/v2/verif_h/forkx"
 	lx "github.com/aergoio/aergo/v2/verif_h/ledgerx"
 	nk "github.com/aergoio/aergo/v2/verif_h/nodekit"
@@ -200,6 +203,94 @@ func oracleChain(t *fx.Tree, n *nk.Node, hist []int, ev int, pre, post *fx.Obs, 
 	return "", ""
 }
 
+// ---- fork/reorg part with a REAL transaction pool attached to the node: the pool is filled
+// with every tx of the scenario, is told about every connected block (MemPoolDel) and gets back
+// the txs of abandoned branches (MemPoolPut) exactly as the chain service sends them; after
+// every delivery the txs the pool offers to a producer must all be executable on the node's
+// best block (none is refused as already executed or out of order), and the block built from
+// them keeps the main chain's nonce sequences intact.
+var pools = map[*nk.Node]*mempool.MemPool{}
+
+func poolStart(t *fx.Tree, n *nk.Node) {
+	mp := mempool.VerifC14New(n.Cfg, n.CS, n.Hub(), n.Best())
+	pools[n] = mp
+	// every tx of every block of the scenario reaches the pool before the blocks do
+	var ids []string
+	for id := range t.TxOf {
+		ids = append(ids, id)
+	}
+	sort.Strings(ids)
+	for _, id := range ids {
+		tx := types.NewTransaction(t.TxOf[id])
+		if mp.VerifC14VerifyTx(tx) == nil {
+			_ = mp.VerifC14Put(tx)
+		}
+	}
+}
+
+func poolAfter(t *fx.Tree, n *nk.Node, msgs []nk.Msg) {
+	mp := pools[n]
+	if mp == nil {
+		return
+	}
+	for _, m := range msgs {
+		switch v := m.Obj.(type) {
+		case *message.MemPoolDel:
+			_ = mp.VerifC13Block(v.Block)
+		case *message.MemPoolPut:
+			perr := mp.VerifC14Put(types.NewTransaction(v.Tx))
+			if perr != nil {
+				// a tx handed back by the chain that is the next executable tx of its account on the
+				// new best state must be taken back by the pool (a refusal loses it for ever)
+				d, e := n.DumpState(n.CS.SDB().GetRoot())
+				if e == nil && d.NonceOf(v.Tx.GetBody().GetAccount())+1 == v.Tx.GetBody().GetNonce() && mp.VerifC13Exist(v.Tx.GetHash()) == nil {
+					poolRefused[n] = fmt.Sprintf("the pool refuses (%v) tx %s#%d handed back by the reorganisation although the account's nonce in the new state is %d", perr,
+						nk.AddrName(v.Tx.GetBody().GetAccount()), v.Tx.GetBody().GetNonce(), d.NonceOf(v.Tx.GetBody().GetAccount()))
+				}
+			}
+		}
+	}
+}
+
+var poolRefused = map[*nk.Node]string{}
+
+func oraclePool(t *fx.Tree, n *nk.Node, hist []int, ev int, pre, post *fx.Obs, err error) (string, string) {
+	if s, m := oracleChain(t, n, hist, ev, pre, post, err); m != "" {
+		return s, m
+	}
+	mp := pools[n]
+	defer delete(pools, n)
+	if m := poolRefused[n]; m != "" {
+		delete(poolRefused, n)
+		return "", m
+	}
+	offered, gerr := mp.VerifC13Get(1 << 20)
+	if gerr != nil {
+		return "", ""
+	}
+	var txs []*types.Tx
+	for _, x := range offered {
+		txs = append(txs, x.GetTx())
+	}
+	if len(txs) == 0 {
+		return "", ""
+	}
+	best := n.Best()
+	b, perr := n.Produce(best, txs, 1, 9, 1)
+	n.ResetGlobals()
+	if perr != nil {
+		return "", "HARNESS produce from pool: " + perr.Error()
+	}
+	if b.Skipped != 0 {
+		var off []string
+		for _, tx := range txs {
+			off = append(off, fmt.Sprintf("%s#%d", nk.AddrName(tx.GetBody().GetAccount()), tx.GetBody().GetNonce()))
+		}
+		return "", fmt.Sprintf("the pool offers %v on best block %d but %d of them cannot be executed there (already executed or beyond a gap)", off, best.BlockNo(), b.Skipped)
+	}
+	return "", ""
+}
+
 type replay struct {
 	Kind string     `json:"kind"` // block | fork
 	Net  int        `json:"net"`
@@ -243,7 +334,8 @@ func run(ctx *xplor.Ctx) {
 			panic(err)
 		}
 		if r.Kind == "fork" {
-			fx.ReplayOne(ctx, nets[r.Net], *r.Fork, oracleChain)
+			fx.Hooks.Start, fx.Hooks.After = poolStart, poolAfter
+			fx.ReplayOne(ctx, nets[r.Net], *r.Fork, oraclePool)
 			return
 		}
 		p, err := lx.Prepare(nets[r.Net], r.Pre, "p")
@@ -277,11 +369,12 @@ func run(ctx *xplor.Ctx) {
 	}
 	// fork / reorg histories on the first net only (one Net per process)
 	if ni == 0 && limit == 0 {
+		fx.Hooks.Start, fx.Hooks.After = poolStart, poolAfter
 		for i, sc := range forkScenarios(ctx.Tier) {
 			if i%nsub != sub || ctx.Expired() {
 				continue
 			}
-			fx.ExploreWrap(ctx, nets[ni], sc, oracleChain, 20000, func(r fx.Replay) interface{} {
+			fx.ExploreWrap(ctx, nets[ni], sc, oraclePool, 20000, func(r fx.Replay) interface{} {
 				return replay{Kind: "fork", Net: ni, Fork: &r}
 			})
 		}
